@@ -15,6 +15,7 @@ Viol(ev) ==
   IF ~InDomain(g) THEN {"bad-input"}
   ELSE CASE ev.e = "Forest" -> ForestViol(g, ev) \cup (IF ev.copy_same THEN {} ELSE {"copy-differs"})
                                               \cup (IF ev.assign_same THEN {} ELSE {"assigned-index-differs"})
+                                              \cup (IF ev.orient_same THEN {} ELSE {"lookup-depends-on-orientation"})
          [] ev.e = "Fvs" -> FvsViol(g, ev.out)
          [] ev.e = "Spt" -> SptViol(g, ev.trees)
          [] ev.e = "Coll" -> CollViol(g, ev.horton, ev.fvs, ev.iso)
